@@ -549,7 +549,9 @@ impl Translator {
                 st.return_stack.pop();
                 // the return type of this instantiation (a generic `T` may be void here)
                 let SolvedType::Function(_, out_ty) = func_ty.subst(&mono) else { unreachable!() };
-                if *out_ty == SolvedType::Void {
+                // `never` arises when the call's result meets a diverging branch
+                // (`if c { return 1 } else { println(0) }`): such a body yields no value either
+                if *out_ty == SolvedType::Void || *out_ty == SolvedType::Never {
                     self.emit(st, Instr::ReturnVoid);
                 } else {
                     self.emit(st, Instr::Return(nargs as u32));
